@@ -40,6 +40,13 @@ func withProcs(n int, fn func()) {
 	fn()
 }
 
+// hlevel is a named integer type the host offers as a type name.
+type hlevel int64
+
+// backgroundRun: runOnce executes the script under context.Background() (set by a sub-check for
+// the duration of one case).
+var backgroundRun bool
+
 const vmMarker = "github.com/mattn/anko/vm."
 
 // deadlocked takes a consistent snapshot of all goroutines (runtime.Stack stops
@@ -124,9 +131,12 @@ func runOnce(src string, deadline time.Duration, tickLimit int64) *runResult {
 			}
 		case int64:
 			return x
+		case hlevel:
+			return int64(x)
 		}
 		return -999999
 	})
+	e.DefineType("hlevel", hlevel(0))
 	e.Define("out", func(v interface{}) {
 		mu.Lock()
 		if !sealed {
@@ -174,7 +184,34 @@ func runOnce(src string, deadline time.Duration, tickLimit int64) *runResult {
 		}
 	}()
 
-	v, err := ank.ExecCtx(ctx, e, src)
+	var v interface{}
+	var err error
+	if backgroundRun {
+		// the script runs under context.Background(), as with vm.Execute: nothing can cancel it, so
+		// it runs on a goroutine of its own and is given up after the deadline
+		type res struct {
+			v   interface{}
+			err error
+		}
+		ch := make(chan res, 1)
+		go func() {
+			v, err := ank.ExecCtx(context.Background(), e, src)
+			ch <- res{v, err}
+		}()
+		select {
+		case rr := <-ch:
+			v, err = rr.v, rr.err
+		case <-ctx.Done():
+			select {
+			case rr := <-ch:
+				v, err = rr.v, rr.err
+			case <-time.After(2 * time.Second):
+				err = context.DeadlineExceeded
+			}
+		}
+	} else {
+		v, err = ank.ExecCtx(ctx, e, src)
+	}
 	ctxErr := ctx.Err()
 	close(stop)
 	<-wdDone
